@@ -70,11 +70,11 @@ static void materialize();
 static void lz_fn_reset();
 static void sanitize(char* s) { for (; *s; ++s) if (*s=='\t' || *s=='\n') *s=' '; }
 
-// Watchdog ("make waiting visible"): a case is a micro-scale execution; if 64 consecutive cases do not complete within
-// VERIF_CASE_TIMEOUT_S (default 120 s) the library is looping inside the current case.  SIGALRM is reported like a crash
+// Watchdog ("make waiting visible"): a case is a micro-scale execution; if 8 consecutive cases do not complete within
+// VERIF_CASE_TIMEOUT_S (default 300 s) the library is looping inside the current case.  SIGALRM is reported like a crash
 // (CRASH line with signal 14, the current case) and classified by the driver as tag 'hang'.
-static unsigned g_case_timeout = 120;
-static inline void watchdog_kick() { if ((ctx.evals & 63) == 1) alarm(g_case_timeout); }
+static unsigned g_case_timeout = 300;
+static inline void watchdog_kick() { if ((ctx.evals & 7) == 1) alarm(g_case_timeout); }
 
 // Begin a case. Returns true when the case must be executed.
 static bool case_begin(const char* fmt, ...) __attribute__((format(printf,1,2)));
